@@ -616,7 +616,24 @@ fn oracle(full: &Block, ks: &[SaitoPublicKey], ev: &Eval, ref_root: Option<H32>)
                     }
                 }
                 if !found {
-                    fail(&mut out, "", "a relevant transaction is not byte-identical (in order) in the block the client holds after the wire trip".to_string());
+                    // is it the position? (the replacement counts of the placeholders in front of it
+                    // must add up to the number of transactions they stand for)
+                    let orig = full.transactions.iter().position(|x| x.signature == t.signature).unwrap_or(0) as u64;
+                    let mut idx = 0u64;
+                    let mut got: Option<u64> = None;
+                    for x in &c.transactions {
+                        if x.signature == t.signature && x.transaction_type == t.transaction_type {
+                            got = Some(idx);
+                            break;
+                        }
+                        idx += if x.transaction_type == TransactionType::SPV { x.txs_replacements as u64 } else { 1 };
+                    }
+                    let detail = match got {
+                        Some(g) if g != orig => format!(": it is transaction {} of the full block but Block::generate numbers it {} in the received lite block (replacement counts of the placeholders before it do not add up), so its output slips get other utxo keys", orig, g),
+                        Some(_) => ": same position, different bytes".to_string(),
+                        None => ": it is missing".to_string(),
+                    };
+                    fail(&mut out, "", format!("a relevant transaction is not byte-identical (in order) in the block the client holds after the wire trip{}", detail));
                     break;
                 }
             }
@@ -825,6 +842,32 @@ impl Ctx {
             }
         }
         if use_oracle {
+            // a light wallet for a listed key that is fed the received lite block ends up with the
+            // slips (utxo key, amount, block id, transaction ordinal, slip index, spent) of a wallet
+            // fed the full block
+            if let Some(c) = ev.client.ok() {
+                let mut seen: Vec<SaitoPublicKey> = vec![];
+                for k in ks.iter() {
+                    if seen.contains(k) || seen.len() >= 4 {
+                        continue;
+                    }
+                    seen.push(*k);
+                    let a = wallet_view(full, k);
+                    let b = wallet_view(c, k);
+                    if a != b {
+                        s.oracle_failure(
+                            case,
+                            &format!(
+                                "a wallet for a listed key fed the received lite block holds different slips than one fed the full block: (block id, tx ordinal, slip index, amount, spent) full {:?} lite {:?}",
+                                a.iter().map(|x| (x.1, x.2, x.3, x.4, x.5)).collect::<Vec<_>>(),
+                                b.iter().map(|x| (x.1, x.2, x.3, x.4, x.5)).collect::<Vec<_>>()
+                            ),
+                            &desc,
+                        );
+                        break;
+                    }
+                }
+            }
             for (id, what) in oracle(full, ks, &ev, ref_root) {
                 if id.is_empty() {
                     s.oracle_failure(case, &what, &desc);
@@ -1185,6 +1228,25 @@ fn pre_fail(ctx: &mut Ctx, what: &str) {
     let case = ctx.coq_cases.len();
     let desc = format!("{{\"case\":{},\"kind\":\"generator precondition\",\"what\":{}}}", case, jstr(what));
     ctx.summary.oracle_failure(case, &format!("generator precondition: {}", what), &desc);
+}
+
+/// what Wallet::on_chain_reorganization makes of a block for the holder of `key`
+fn wallet_view(b: &Block, key: &SaitoPublicKey) -> Vec<(Vec<u8>, u64, u64, u8, u64, bool)> {
+    let mut w = saito_core::core::consensus::wallet::Wallet::new([0u8; 32], *key);
+    let r = catch_unwind(AssertUnwindSafe(|| {
+        w.on_chain_reorganization(b, true, 100);
+    }));
+    if r.is_err() {
+        let _ = panic_site();
+        return vec![(b"panic".to_vec(), 0, 0, 0, 0, false)];
+    }
+    let mut v: Vec<(Vec<u8>, u64, u64, u8, u64, bool)> = w
+        .slips
+        .values()
+        .map(|x| (x.utxokey.to_vec(), x.block_id, x.tx_ordinal, x.slip_index, x.amount, x.spent))
+        .collect();
+    v.sort();
+    v
 }
 
 fn fake_key(i: u8) -> SaitoPublicKey {
